@@ -81,9 +81,9 @@ namespace xv
             XV_F1(log2, 2.25, 4.5, R_PLAIN, 0, 0, false, false),
             XV_F1(log10, 1.25, 4.5, R_PLAIN, 0, 0, false, false),
             XV_F1(log1p, 1.25, 4.5, R_PLAIN, 0, 0, false, false),
-            XV_F1(sin, 2.75, 4.5, R_PLAIN, 0, 0, true, false),
-            XV_F1(cos, 2.75, 4.5, R_PLAIN, 0, 0, false, true),
-            XV_F1(tan, 4.0, 4.5, R_PLAIN, 0, 0, true, false),
+            XV_F1(sin, 2.75, 4.5, R_PLAIN, 128, 64, true, false),
+            XV_F1(cos, 2.75, 4.5, R_PLAIN, 128, 64, false, true),
+            XV_F1(tan, 4.0, 4.5, R_PLAIN, 128, 64, true, false),
             XV_F1(asin, 2.75, 4.5, R_PLAIN, 0, 0, true, false),
             XV_F1(acos, 1.75, 4.5, R_PLAIN, 0, 0, false, false),
             XV_F1(atan, 2.75, 4.5, R_PLAIN, 0, 0, true, false),
@@ -98,8 +98,8 @@ namespace xv
             XV_F1(erfc, 96.0, 64.0, R_ERFC64, 0, 0, false, false),
             { "tgamma", 1, (d1)::tgamma, nullptr, (l1)::tgammal, nullptr, (mp1)mpfr_gamma, nullptr, 14.0, 16.0, R_TGAMMA, 80, 256, false, false, 0, "tgamma" },
             { "lgamma", 1, ref_lgamma, nullptr, ref_lgammal, nullptr, mp_lgamma, nullptr, 8.0, 4.0, R_LGAMMA, 8, 64, false, false, 0, "lgamma" },
-            { "sincos.sin", 1, (d1)::sin, nullptr, (l1)::sinl, nullptr, (mp1)mpfr_sin, nullptr, 2.75, 4.5, R_PLAIN, 0, 0, false, false, 0, "sincos" },
-            { "sincos.cos", 1, (d1)::cos, nullptr, (l1)::cosl, nullptr, (mp1)mpfr_cos, nullptr, 2.75, 4.5, R_PLAIN, 0, 0, false, false, 1, "sincos" },
+            { "sincos.sin", 1, (d1)::sin, nullptr, (l1)::sinl, nullptr, (mp1)mpfr_sin, nullptr, 2.75, 4.5, R_PLAIN, 128, 64, false, false, 0, "sincos" },
+            { "sincos.cos", 1, (d1)::cos, nullptr, (l1)::cosl, nullptr, (mp1)mpfr_cos, nullptr, 2.75, 4.5, R_PLAIN, 128, 64, false, false, 1, "sincos" },
             { "atan2", 2, nullptr, (d2)::atan2, nullptr, (l2)::atan2l, nullptr, (mp2)mpfr_atan2, 3.0, 4.5, R_PLAIN, 0, 0, false, false, 0, "atan2" },
             { "hypot", 2, nullptr, (d2)::hypot, nullptr, (l2)::hypotl, nullptr, (mp2)mpfr_hypot, 1.5, 4.5, R_PLAIN, 0, 0, false, false, 0, "hypot" },
             { "pow", 2, nullptr, (d2)::pow, nullptr, (l2)::powl, nullptr, (mp2)mpfr_pow, 4.0, 4.0, R_POW, 0, 0, false, false, 0, "pow" },
